@@ -72,6 +72,7 @@ def run(ctx):
     shared_attribute_element_name(ctx)
     repeated_requests(ctx)
     repeated_raw_element_arguments(ctx)
+    encoded_any_parts(ctx)
     unprefixed_namespaces_twins_and_simple_derivations(ctx)
     from harness.props import c07
     c07.handwritten_renderings(ctx)      # (blocks that name their own namespace by prefix / by default / not at all)
@@ -577,6 +578,34 @@ def unprefixed_namespaces_twins_and_simple_derivations(ctx):
                     got = "%s: %s" % (type(e).__name__, e)
                 if got != [want_h, want_b]:
                     ctx.fail("request differs from what the WSDL prescribes", meta, got, [want_h, want_b])
+
+
+def encoded_any_parts(ctx):
+    """rpc/encoded: a part or a member declared xsd:anyType is written with the xsi:type of the VALUE given (a
+    receiver cannot learn it from anywhere else), not with xsi:type anyType."""
+    XSD = xmlread.XSD
+    schema = ('<xsd:complexType name="Holder"><xsd:sequence><xsd:element name="any" type="xsd:anyType"/></xsd:sequence>'
+              '</xsd:complexType>')
+    w = wsdlkit.wsdl_doc(schema, style="rpc", use="encoded", in_parts=[("v", "type", "xsd:anyType"), ("h", "type", "x:Holder")],
+                         out_parts=[("return", "type", "xsd:string")])
+    c = wsdlkit.client(w, nosend=True)
+
+    def ty(n):
+        t = n["attrs"].get((xmlread.XSI, "type"))
+        return None if t is None else list(xmlread.resolve_qname(n, t))
+    for val, tname in ((True, "boolean"), (2.5, "float"), (7, "long"), ("s", "string")):
+        meta = {"stream": "encoded-any-parts", "value": repr(val)}
+        ctx.case(common.canon(meta), True)
+        try:
+            env = wsdlkit.envelope_bytes(c.service.f(val, {"any": val}))
+            fn = xmlread.find1(xmlread.parse(env), "Body")["children"][0]
+            v, h = fn["children"]
+            got = [ty(v), ty(h["children"][0]), v["text"].lower(), h["children"][0]["text"].lower()]
+        except Exception as e:
+            got = "%s: %s" % (type(e).__name__, e)
+        want = [[XSD, tname], [XSD, tname], str(val).lower(), str(val).lower()]
+        if got != want:
+            ctx.fail("request differs from what the WSDL prescribes", meta, got, want)
 
 
 def tuples_for_repeated_elements(ctx):
